@@ -474,36 +474,78 @@ func runC15(c *Ctx) {
 	}
 	c.Check(len(tags) == 2 && tags["BaseCRL"] != "" && tags["DeltaCRL"] != "" && tags["BaseCRL"] != tags["DeltaCRL"], "pairing/json-names", "the entry has two fields BaseCRL and DeltaCRL with distinct, non-empty JSON names", w.InstrPos(entry), fmt.Sprintf("tags: %v", tags))
 	ed := desc(entry)
-	// Get: parse(field X) -> bundle.X
+	// Get: parse(field X) -> bundle.X. The bundle field may be assigned in place or through a local that is nil or the parsed
+	// list (`var d *RevocationList; if entry.X != nil { d, err = Parse(entry.X) }; ...; &Bundle{X: d}`).
 	var bundle *ssa.Alloc
 	okPair := true
 	detail := ""
-	for _, f := range []string{"BaseCRL", "DeltaCRL"} {
-		found := false
-		for _, ci := range findCalls(Get, "crypto/x509.ParseRevocationList") {
-			call := ci.(*ssa.Call)
-			if desc(call.Call.Args[0]) != ed+"."+f {
+	bundleVals := map[string][]string{} // field -> how the field's value is written in conditions (in place, or the local)
+	var nonNilSrcs func(v ssa.Value, seen map[ssa.Value]bool, out *[]ssa.Value)
+	nonNilSrcs = func(v ssa.Value, seen map[ssa.Value]bool, out *[]ssa.Value) {
+		if seen[v] {
+			return
+		}
+		seen[v] = true
+		if ph, ok := v.(*ssa.Phi); ok {
+			for _, e := range ph.Edges {
+				nonNilSrcs(e, seen, out)
+			}
+			return
+		}
+		if isNilConst(v) {
+			return
+		}
+		*out = append(*out, v)
+	}
+	var bundleT types.Type
+	if r := Get.Signature.Results(); r.Len() == 2 {
+		bundleT = r.At(0).Type()
+	}
+	fieldSrcs := map[string][]ssa.Value{}
+	for _, b := range Get.Blocks {
+		for _, in := range b.Instrs {
+			st, ok := in.(*ssa.Store)
+			if !ok {
 				continue
 			}
-			for _, r := range *call.Referrers() {
-				ex, ok := r.(*ssa.Extract)
-				if !ok || ex.Index != 0 {
-					continue
-				}
-				for _, rr := range *ex.Referrers() {
-					if st, ok := rr.(*ssa.Store); ok {
-						if fa, ok := st.Addr.(*ssa.FieldAddr); ok && fieldName(fa.X.Type(), fa.Field) == f {
-							found = true
-							bundle, _ = fa.X.(*ssa.Alloc)
-						} else {
-							okPair = false
-							detail = "parsed " + f + " is stored into " + desc(st.Addr)
-						}
-					}
-				}
+			fa, ok := st.Addr.(*ssa.FieldAddr)
+			if !ok {
+				continue
+			}
+			al, ok := fa.X.(*ssa.Alloc)
+			if !ok || bundleT == nil || !types.Identical(al.Type(), bundleT) {
+				continue
+			}
+			if bundle != nil && bundle != al {
+				okPair = false
+				detail = "more than one bundle is filled"
+			}
+			bundle = al
+			f := fieldName(al.Type(), fa.Field)
+			var srcs []ssa.Value
+			nonNilSrcs(st.Val, map[ssa.Value]bool{}, &srcs)
+			fieldSrcs[f] = append(fieldSrcs[f], srcs...)
+			if _, isPhi := st.Val.(*ssa.Phi); isPhi || len(srcs) == 1 {
+				bundleVals[f] = append(bundleVals[f], desc(st.Val))
 			}
 		}
-		if !found {
+	}
+	for f, srcs := range fieldSrcs {
+		for _, v := range srcs {
+			good := false
+			if ex, ok := v.(*ssa.Extract); ok && ex.Index == 0 {
+				if call, ok := ex.Tuple.(*ssa.Call); ok && calleeName(call) == "crypto/x509.ParseRevocationList" && desc(call.Call.Args[0]) == ed+"."+f {
+					good = true
+				}
+			}
+			if !good {
+				okPair = false
+				detail = "bundle." + f + " receives " + desc(v)
+			}
+		}
+	}
+	for _, f := range []string{"BaseCRL", "DeltaCRL"} {
+		if len(fieldSrcs[f]) == 0 {
 			okPair = false
 			if detail == "" {
 				detail = "entry field " + f + " is not parsed into bundle." + f
@@ -511,18 +553,23 @@ func runC15(c *Ctx) {
 		}
 	}
 	c.Check(okPair, "pairing/get", "Get parses entry field X into bundle.X for X in {BaseCRL, DeltaCRL}", w.FnPos(Get), detail)
-	// Set: bundle.X.Raw -> entry field X
+	// Set: bundle.X.Raw -> entry field X (directly, or through a local that is nil or bundle.X.Raw)
 	okSet := true
 	sdetail := ""
 	var sEntry *ssa.Alloc
-	stored := map[string]string{}
+	stored := map[string][]string{}
 	for _, b := range Set.Blocks {
 		for _, in := range b.Instrs {
 			if st, ok := in.(*ssa.Store); ok {
 				if fa, ok := st.Addr.(*ssa.FieldAddr); ok {
 					if al, ok := fa.X.(*ssa.Alloc); ok && types.Identical(al.Type(), entry.Type()) {
 						sEntry = al
-						stored[fieldName(al.Type(), fa.Field)] = desc(st.Val)
+						var srcs []ssa.Value
+						nonNilSrcs(st.Val, map[ssa.Value]bool{}, &srcs)
+						f := fieldName(al.Type(), fa.Field)
+						for _, v := range srcs {
+							stored[f] = append(stored[f], desc(v))
+						}
 					}
 				}
 			}
@@ -530,9 +577,15 @@ func runC15(c *Ctx) {
 	}
 	bp := "param:" + Set.Params[3].Name()
 	for _, f := range []string{"BaseCRL", "DeltaCRL"} {
-		if stored[f] != bp+"."+f+".Raw" {
+		okF := len(stored[f]) > 0
+		for _, d := range stored[f] {
+			if d != bp+"."+f+".Raw" {
+				okF = false
+			}
+		}
+		if !okF {
 			okSet = false
-			sdetail += fmt.Sprintf("entry.%s = %s; ", f, stored[f])
+			sdetail += fmt.Sprintf("entry.%s = %v; ", f, stored[f])
 		}
 	}
 	c.Check(okSet, "pairing/set", "Set stores bundle.X.Raw into entry field X for X in {BaseCRL, DeltaCRL}", w.FnPos(Set), sdetail)
@@ -573,10 +626,19 @@ func runC15(c *Ctx) {
 		c.Bad("get/base-expiry", "Get checks the expiry of the base CRL", w.FnPos(Get), "no expiry check on a NextUpdate")
 	} else {
 		exn := "call:" + fnName(EX) + "("
+		var baseAlt [][]string
+		for _, v := range append([]string{bd + ".BaseCRL"}, bundleVals["BaseCRL"]...) {
+			baseAlt = append(baseAlt, []string{"EQ(" + exn, v + ".NextUpdate)#err,nil)"})
+		}
 		c.requireOnExits("get", Get, s.Exits, []Need{
-			{Name: "base-expiry", What: "expiry check of bundle.BaseCRL.NextUpdate passes", Subs: []string{"EQ(" + exn, bd + ".BaseCRL.NextUpdate)#err,nil)"}},
+			{Name: "base-expiry", What: "expiry check of bundle.BaseCRL.NextUpdate passes", Alt: baseAlt},
 		})
-		ok, n, wit := exitsBlocked(gfi, m, matchOf(pre("EQ("+bd+".DeltaCRL,nil)"), pre("EQ("+exn, bd+".DeltaCRL.NextUpdate)#err,nil)")), nil)
+		// no delta: the bundle's field (or the local it is built from) is nil, or the entry stores none (pairing/get)
+		preds := []func(string) bool{pre("EQ(" + ed + ".DeltaCRL,nil)")}
+		for _, v := range append([]string{bd + ".DeltaCRL"}, bundleVals["DeltaCRL"]...) {
+			preds = append(preds, pre("EQ("+v+",nil)"), pre("EQ("+exn, v+".NextUpdate)#err,nil)"))
+		}
+		ok, n, wit := exitsBlocked(gfi, m, matchOf(preds...), nil)
 		c.slot(ok && n >= 2, n, "get/delta-expiry", "whenever the bundle has a delta CRL its expiry check passes (independently of the base)", w.FnPos(Get), "a bundle whose delta CRL is expired is returned", wit...)
 		c15Expiry(c, EX)
 	}
